@@ -111,12 +111,17 @@ fn corpus() -> Vec<(&'static str, P, P)> {
             POh { w: vec![0, 0], e: vec![], s: vec![1, 1], t: vec![1, 1] },
             POh { w: vec![0, 0, 1], e: vec![e(0, &[0, 1], &[2])], s: vec![0, 1], t: vec![2] },
         ),
+        (
+            "mismatch_by_permutation",
+            POh { w: vec![0, 1], e: vec![e(0, &[0], &[1])], s: vec![0], t: vec![0, 1] },
+            POh { w: vec![1, 0], e: vec![e(1, &[0, 1], &[])], s: vec![0, 1], t: vec![] },
+        ),
         ("stress_zigzag_10k", zf2, zg2),
     ]
 }
 
 impl C01 {
-    fn judge(&self, ctx: &mut Ctx, class: &str, f: &P, g: &P) {
+    fn judge<O: Lbl, A: Lbl>(&self, ctx: &mut Ctx, class: &str, f: &POh<O, A>, g: &POh<O, A>) {
         let input = || json!({"f": show(f), "g": show(g)});
         let big = f.w.len() + g.w.len() > 200;
         let lf = to_strict(f);
@@ -289,6 +294,9 @@ impl Monitor for C01 {
             ("class:collapse_all_to_one", 1),
             ("class:mismatch_by_length", 1),
             ("class:mismatch_by_one_label", 1),
+            ("class:mismatch_by_permutation", 1),
+            ("class:labels_are_strings", 100),
+            ("class:labels_are_unit", 100),
             ("class:types_match", 100),
             ("class:types_differ", 30),
             ("outcome:Some", 100),
@@ -380,6 +388,23 @@ impl Monitor for C01 {
             return;
         }
         self.judge(ctx, "random", &f, &g);
+        match r.below(16) {
+            0 | 1 => {
+                // non-Copy labels: the same pair over String labels
+                ctx.class("labels_are_strings");
+                let fs = f.map_labels(|o| format!("node-label-{}", o), |a| format!("op-{}", a));
+                let gs = g.map_labels(|o| format!("node-label-{}", o), |a| format!("op-{}", a));
+                self.judge(ctx, "string_labels", &fs, &gs);
+            }
+            2 if f.w.len() + g.w.len() <= 16 => {
+                // zero-sized labels: types agree iff the boundary lengths agree
+                ctx.class("labels_are_unit");
+                let fs = f.map_labels(|_| (), |_| ());
+                let gs = g.map_labels(|_| (), |_| ());
+                self.judge(ctx, "unit_labels", &fs, &gs);
+            }
+            _ => {}
+        }
         if r.chance(1, 3) && (f.w.len() + g.w.len() <= 16 || force_unique) {
             self.judge_lax(ctx, &f, &g, r);
         }
